@@ -264,7 +264,12 @@ impl PeerState {
             },
         };
         if let AcceptOutcome::Allow = outcome {
+            // A sync report that was refused while our own request was running stays queued when
+            // the remote's request takes the slot over: it is followed up when that session ends.
+            let resync_requested =
+                self.resync_requested && matches!(self.state, SyncState::Running { .. });
             self.set_sync_running(Origin::Accept);
+            self.resync_requested = resync_requested;
         }
         outcome
     }
